@@ -113,6 +113,8 @@ def _bufcells(b):
 
 def s_unpack(I, args, kw):
     fmt, buf = args
+    if not isinstance(buf, SBuf) or not buf.is_symbolic():
+        return struct.unpack(fmt, buf.native() if isinstance(buf, SBuf) else buf)
     order, items = _parse_fmt(fmt)
     cells = _bufcells(buf)
     need = sum(s for s, _ in items)
@@ -135,9 +137,9 @@ def s_unpack_from(I, args, kw):
 
 def s_pack(I, args, kw):
     fmt = args[0]
+    if not any(isinstance(v, (SInt, SBool)) or (isinstance(v, SBuf) and v.is_symbolic()) for v in args[1:]):
+        return struct.pack(fmt, *[v.native() if isinstance(v, SBuf) else v for v in args[1:]])
     order, items = _parse_fmt(fmt)
-    if not any(isinstance(v, (SInt, SBool)) for v in args[1:]):
-        return struct.pack(fmt, *args[1:])
     return SBuf(_pack_cells(order, items, list(args[1:])), 'bytes')
 
 def s_pack_into(I, args, kw):
@@ -554,8 +556,21 @@ def s_range(I, args, kw):
     return [start + i for i in range(max(0, n))]
 
 
+def s_bytesio(I, args, kw):
+    import io
+    init = args[0] if args else b''
+    if sym.engine().mode == 'symbolic' and (getattr(I, 'symbolic_bytesio', False)
+                                            or (isinstance(init, SBuf) and init.is_symbolic())):
+        return sym.SStream(init)
+    if isinstance(init, SBuf):
+        init = init.native()
+    return io.BytesIO(init)
+
+
 def install(I):
     S = I.summaries
+    import io as _io
+    S[_io.BytesIO] = s_bytesio
     S[range] = s_range
     S[struct.unpack] = s_unpack
     S[struct.unpack_from] = s_unpack_from
